@@ -491,6 +491,7 @@ type JobResult struct {
 	Inconclusive []string
 	FuncInstrs   map[string]int
 	FuncSym      map[string]bool
+	FuncHarness  map[string]bool
 	Stubs        map[string]int
 	Terms        int
 	WallS        float64
@@ -554,6 +555,7 @@ func (w *Worker) RunJob(job Job) (res *JobResult) {
 	res.Inconclusive = in.Inconclusive
 	res.FuncInstrs = in.FuncInstrs
 	res.FuncSym = in.FuncSym
+	res.FuncHarness = in.FuncHarness
 	res.Stubs = in.Stubs
 	res.Terms = w.Bank.Size()
 	res.Obs = in.PathObs
